@@ -612,7 +612,7 @@ def shard(ctx: runner.Ctx) -> None:
             ctx.notes["exhaustive_complete"] = 1
 
         # ---- sampled N=3 / double crashes ----
-        n = ctx.n(16_000, 400_000)
+        n = ctx.n(12_000, 400_000)
 
         def one(case: Dict[str, Any]) -> None:
             pct = case.pop("pct", None)
